@@ -353,6 +353,63 @@ macro_rules! try_value_targets {
 }
 type VecL0<T> = Vec<L0<T>>;
 
+/// mismatches where the offending value is a TABLE defined by its own header: the error must point at that header (where
+/// the table's span starts), whatever was declared before it - in particular a sub-table declared BEFORE its parent
+fn typed_tables(rep: &mut Report) {
+    let t0 = std::time::Instant::now();
+    let mut acc = Acc::default();
+    // (document, the header the error must start at)
+    let docs: Vec<(String, &str)> = vec![
+        ("[x]\ny = 1\n".into(), "[x]"),
+        ("# é\nk = 1\n[x] # c\ny = 1\nz = 2\n".into(), "[x]"),
+        ("[x.b]\nz = 1\n[x]\ny = 2\n".into(), "[x]\n"),
+        ("# é😀\n[x.b.c]\nz = 1\n\n[x]\ny = 2\nw = 3\n[q]\n".into(), "[x]\n"),
+        ("[x]\ny = 2\n[x.b]\nz = 1\n".into(), "[x]\n"),
+        ("[[x.b]]\nz = 1\n[x]\ny = 2\n".into(), "[x]\n"),
+        ("[q]\n[x.b]\nz = 1\n[x.c]\n[x]\ny = 2\n".into(), "[x]\n"),
+    ];
+    for (doc, header) in &docs {
+        let want = doc.find(header).expect("header");
+        let mut judge = |target: &str, routes: Vec<RouteRes>| {
+            for (route, has_src, res) in routes {
+                if !has_src {
+                    continue;
+                }
+                acc.evals += 1;
+                let label = format!("{:?} into {} via {}", doc, target, route);
+                acc.nontrivial(label.as_bytes());
+                match res {
+                    Ok(()) => acc.viol("U-typed-table", label, None, "a table was accepted where the target type has no table".into()),
+                    Err(e) => {
+                        if let Err((c, m)) = check_error(doc, &e.message, e.span.clone(), &e.shown, &e.dbg, route) {
+                            acc.viol("U-typed-table", label, c, m);
+                            continue;
+                        }
+                        match e.span {
+                            None => acc.viol("U-typed-table", label, None, format!("error without a span although the source is available: {}", e.message)),
+                            Some(sp) if sp.start != want => acc.viol("U-typed-table", label, None, format!("the error about table x starts at byte {} (span {:?}), the table's own header is at byte {} ({})", sp.start, sp, want, e.message)),
+                            Some(_) => acc.bump("table-mismatch-located-at-its-header"),
+                        }
+                    }
+                }
+            }
+        };
+        // x is a table where a scalar / array is wanted; x lacks a required field
+        judge("L0<i64>", doc_routes!(L0<i64>, doc));
+        judge("L0<String>", doc_routes!(L0<String>, doc));
+        judge("L0<Vec<i64>>", doc_routes!(L0<Vec<i64>>, doc));
+        #[derive(Deserialize, Debug)]
+        #[allow(dead_code)]
+        struct Need {
+            y: i64,
+            required: i64,
+        }
+        judge("L0<{y, required}> (missing field)", doc_routes!(L0<Need>, doc));
+    }
+    let n = acc.evals;
+    rep.absorb("U-typed-table", "7 documents whose table x is defined by its own header before / after / between its sub-tables x 4 targets that fail AT the table x 7 routes with the source text: the error starts at the table's own header", n, true, t0, acc);
+}
+
 pub fn typed(rep: &mut Report) {
     let t0 = std::time::Instant::now();
     let mut cases: Vec<String> = Vec::new();
@@ -544,8 +601,26 @@ pub fn c15(tier: Tier) -> i32 {
         let (total, acc) = sweep_list(&cases, &f);
         rep.absorb("U-mb", "4 multi-byte seed documents: every truncation and every single-character insert / substitute (SIGMA14) / delete", total, true, t0, acc);
     }
+    {
+        // errors far into a long line: columns around the widths of narrow counters / formatting arguments
+        let t0 = std::time::Instant::now();
+        let mut cases = Vec::new();
+        for n in [100usize, 254, 255, 256, 257, 4095, 4096, 32767, 32768, 65533, 65534, 65535, 65536, 65537, 70000, 131072, 200000] {
+            for (unit, tail) in [("x", "\" junk\n"), ("é", "\" junk\n"), ("x", "\"\nb = \n"), ("😀", "\" = = 1")] {
+                cases.push(format!("a = \"{}{}", unit.repeat(n), tail));
+                cases.push(format!("# first line\nb = 1\na = \"{}{}", unit.repeat(n), tail));
+            }
+            cases.push(format!("a = [{}] junk", "1,".repeat(n / 2)));
+            cases.push(format!("{} = 1 junk", "k".repeat(n)));
+            cases.push(format!("a = {{ b = [{}], c = 1 }} junk\n", "1, ".repeat(n / 3)));
+        }
+        let f = |s: &str, acc: &mut Acc| c15_eval(s.as_bytes(), "U-long-line", acc);
+        let (total, acc) = sweep_list(&cases, &f);
+        rep.absorb("U-long-line", "errors located 100 ... 200 000 characters into one line (1-, 2- and 4-byte characters; first and third line; strings, arrays, keys, inline tables)", total, true, t0, acc);
+    }
     docu::run(&mut rep, tier, &["raw", "vtok"], &c15_value_eval);
     typed(&mut rep);
+    typed_tables(&mut rep);
     rep.finish()
 }
 
